@@ -18,13 +18,22 @@ rlevinson, levup, aryule, rc2poly - functions of OTHER modules of the package - 
 module text and embedded (SCall / SCall1); keyword and omitted arguments are positions of the callee's parameter list; the hidden oracle parameters of a
 callee become hidden parameters of the caller.  Comparators: coq/Model/LoopIRWrap.v; theorem for aryule: coq/Proofs/LoopIRAryule.v.
 
+T7: the FFT-based kernels arma.arma2psd, minvar.minvar (the WHOLE function), correlog.CORRELOGRAMPSD and periodogram.speriodogram (1-D path) are translated
+too.  numpy.fft.fft / rfft (names bound exactly once at module level by `from numpy.fft import ..`) become [EFft] / [ERfft] = the DFT specification of
+Theory/Dft.v over a hidden twiddle parameter (the LAST parameter of the program: the value [VTw tw]); numpy.fft.fftshift, the builtin max of an array,
+numpy.mean, x.ndim, x.shape[0], type(x) == int, slice stores x[a:b:c] = e are IR primitives; `Window(N, name[, **p]).data`, numpy.pi and the results of
+the calls a spec declares oracles (xcorr) are hidden oracle parameters; `from . import tools` inside a block, a call of a package function as a statement,
+a package constant as a default (NFFT=default_NFFT), a dict default that only feeds an oracle, exception classes derived from errors.SpectrumError are
+accepted (all fail-closed, self-tested).  Comparators: coq/Model/LoopIRVec.v; generators: props/_loopir_vec.py; theorem for arma2psd:
+coq/Proofs/LoopIRArma2psd.v.
+
 The translator is fail-closed: an `ast` node outside the recognised subset aborts the translation of that function
 (`Untranslatable`), which the tie reports through ctx.broken as "translation of <fn> failed: <node>".  Nothing is
 skipped silently; what is ignored is listed here: docstrings / bare string statements, `logging.<f>(...)` statements
 whose arguments are formatting (or slices of names) only, exception objects of a known class that are built but not raised, and, for a function translated by REGION (minvar), the statements named
 verbatim in its spec (they must be present, textually unchanged, in the given order).
 """
-import ast, hashlib, os, re, sys, time
+import ast, copy, hashlib, os, re, sys, time
 from concurrent.futures import ThreadPoolExecutor
 import numpy as np
 import vlib
@@ -73,13 +82,21 @@ SPECS = {
     'ar2rc': dict(module='linear_prediction'),
     'rc2poly': dict(module='linear_prediction'),
     'rc2ac': dict(module='linear_prediction'),
+    # T7: the FFT-based kernels.  numpy.fft.fft / rfft are the IR's [EFft] / [ERfft] over a hidden twiddle parameter (the LAST parameter of the
+    # program); Window(N, name).data, numpy.pi and (CORRELOGRAMPSD) the results of xcorr are hidden oracle parameters
+    'arma2psd': dict(module='arma'),
+    'minvar': dict(module='minvar'),                                        # the WHOLE function: checks + embedded arburg + psi loop + fft + division
+    'CORRELOGRAMPSD': dict(module='correlog', oracle_calls=('xcorr',)),     # the xcorr branch stays an oracle call
+    # the 1-D path: the bodies of the `if x.ndim == 2:` tests are not translated ([SUnsupported]: entering one is the outcome OErr Unsupported)
+    'speriodogram': dict(module='periodogram', unsupported_if=('x.ndim == 2',)),
 }
 # oracle calls of a function when it is translated as a CALLEE (its hidden oracle parameters become hidden parameters of the caller)
 CALLEE_ORACLES = {('correlation', 'CORRELATION'): ('pylab_rms_flat',)}
 PACKAGE = 'spectrum'
 
 EXC = {'ValueError': 'ValueError', 'AssertionError': 'AssertionError', 'IndexError': 'IndexError',
-       'ZeroDivisionError': 'ZeroDivisionError', 'NotImplementedError': 'NotImplementedError'}
+       'ZeroDivisionError': 'ZeroDivisionError', 'NotImplementedError': 'NotImplementedError', 'TypeError': 'TypeError'}
+TW_KEY = 'fft@tw'            # the hidden twiddle parameter of a program that calls numpy.fft.fft / rfft: always its LAST parameter
 BINOPS = {ast.Add: 'BAdd', ast.Sub: 'BSub', ast.Mult: 'BMul', ast.Div: 'BDiv', ast.FloorDiv: 'BFloorDiv', ast.Mod: 'BMod'}
 CMPOPS = {ast.Eq: 'CEq', ast.NotEq: 'CNe', ast.Lt: 'CLt', ast.LtE: 'CLe', ast.Gt: 'CGt', ast.GtE: 'CGe'}
 
@@ -247,6 +264,9 @@ class FnTranslator:
         self.local_imports = {}                                # name -> (module, function): `from .M import f` at the head of the function body
         self.tuple_vars = {}                                   # name -> slots of the values of the tuple a call returned (T6)
         self.np_names = set(); self.logging_names = set(); self.nodes = 0
+        self.fft_names = {}           # T7: local name -> 'fft' | 'rfft' (bound exactly once at module level by `from numpy.fft import ..`)
+        self.window_names = set()     # T7: names bound exactly once at module level to the package's Window class
+        self.local_modules = {}       # T7: name -> module: `from . import M [as m]` as a statement inside the function body
         for n in modtree.body:
             if isinstance(n, ast.Import):
                 for a in n.names:
@@ -254,7 +274,30 @@ class FnTranslator:
                         self.np_names.add(a.asname or 'numpy')
                     if a.name == 'logging':
                         self.logging_names.add(a.asname or 'logging')
+            if isinstance(n, ast.ImportFrom) and n.level == 0 and n.module == 'numpy.fft':
+                for a in n.names:
+                    g = a.asname or a.name
+                    if a.name in ('fft', 'rfft') and len(name_bindings(modtree, g)) == 1:
+                        self.fft_names[g] = a.name
+            if isinstance(n, ast.ImportFrom) and package_module_of(n) == 'window':
+                for a in n.names:
+                    g = a.asname or a.name
+                    if a.name == 'Window' and len(name_bindings(modtree, g)) == 1:
+                        self.window_names.add(g)
+        if spec.get('unsupported_if'):
+            # the bodies of the `if` statements whose test is named verbatim in the spec are NOT translated: they become [SUnsupported]
+            self.fn = fn = copy.deepcopy(fn)
+            hit = set()
+            for n in ast.walk(fn):
+                if isinstance(n, ast.If) and ast.unparse(n.test) in spec['unsupported_if']:
+                    mark = ast.Pass(); mark._unsupported = True
+                    ast.copy_location(mark, n.body[0])
+                    n.body = [mark]; hit.add(ast.unparse(n.test))
+            if hit != set(spec['unsupported_if']):
+                raise Untranslatable(fn, 'test expected verbatim by the spec (unsupported_if) not found')
         self.oracle_fns = set(spec.get('oracles', ()))
+        self.oracle_call_fns = set(spec.get('oracle_calls', ()))      # T7: package functions whose calls stay oracle calls (xcorr): `a, b = f(names..)`
+        self.pi_slot = None
         self.crit_class = set()       # names bound to spectrum's Criteria class inside the function
         self.crit_objs = set()        # local names holding a Criteria object
         self.scopes = [{}]            # name -> slot (comprehension variables get scopes of their own)
@@ -307,10 +350,13 @@ class FnTranslator:
                 self.assigned.add(n.id)
             if isinstance(n, (ast.Global, ast.Nonlocal, ast.Lambda, ast.FunctionDef, ast.AsyncFunctionDef, ast.ClassDef)) and n is not fn:
                 self.fail(n, 'nested scope / global declaration')
+        for n in ast.walk(fn):
             if isinstance(n, ast.ImportFrom):
                 if n.module == 'spectrum' and [x.name for x in n.names] == ['Criteria'] and n.names[0].asname is None:
                     self.crit_class.add('Criteria')
                 elif self.head_import(n):
+                    pass
+                elif self.block_import(n):
                     pass
                 else:
                     self.fail(n, 'import inside the function')
@@ -331,9 +377,10 @@ class FnTranslator:
         else:
             params = [x.arg for x in a.args]
             nd = len(a.defaults)
-            defaults = [None] * (len(params) - nd) + [self.default(d) for d in a.defaults]
+            defaults = [None] * (len(params) - nd) + [self.default(d, params[len(params) - nd + i]) for i, d in enumerate(a.defaults)]
         for p in params:
             self.scopes[0][p] = self.new_slot(p)
+        self.find_window_oracles(fn)
         # hidden oracle parameters, in order of appearance
         for n in ast.walk(fn):
             if isinstance(n, ast.Call) and isinstance(n.func, ast.Name) and n.func.id in self.oracle_fns:
@@ -342,12 +389,31 @@ class FnTranslator:
                 key = '%s(%s)@%d' % (n.func.id, n.args[0].id, len(self.oracle_params))
                 n._oracle_slot = self.new_slot(key)
                 self.oracle_params.append(key); defaults.append(None)
+            # T7: Window(N, name[, **params]) objects (their .data), the results of the calls the spec declares oracles (xcorr), numpy.pi
+            elif isinstance(n, ast.Call) and isinstance(n.func, ast.Name) and n.func.id in self.window_names and n.func.id not in self.assigned:
+                key = '%s.data@%d' % (' '.join(ast.unparse(n).split()), len(self.oracle_params))
+                n._oracle_slot = self.new_slot(key)
+                self.oracle_params.append(key); defaults.append(None)
+            elif isinstance(n, ast.Assign) and isinstance(n.value, ast.Call) and isinstance(n.value.func, ast.Name) and n.value.func.id in self.oracle_call_fns:
+                n._oracle_slots = []
+                for i in range(self.oracle_call_arity(n)):
+                    key = '%s[%d]@%d' % (' '.join(ast.unparse(n.value).split()), i, len(self.oracle_params))
+                    n._oracle_slots.append(self.new_slot(key)); self.oracle_params.append(key); defaults.append(None)
+            elif isinstance(n, ast.Attribute) and n.attr == 'pi' and self.is_np(n, ('pi',)):
+                if self.pi_slot is None:
+                    self.pi_slot = self.new_slot('numpy.pi@%d' % len(self.oracle_params))
+                    self.oracle_params.append('numpy.pi@%d' % len(self.oracle_params)); defaults.append(None)
         # hidden oracle parameters of the embedded callees (CORRELATION's two pylab_rms_flat results inside aryule, ...): in order of the calls
         for c in self.calls:
             c._hidden = []
             for key in c._callee.oracle_params:
                 k2 = '%s.%s#%d' % (c._callee.pyname, key, len(self.oracle_params))
                 c._hidden.append(self.new_slot(k2)); self.oracle_params.append(k2); defaults.append(None)
+        # T7: the hidden twiddle parameter of numpy.fft.fft / rfft: the LAST parameter
+        self.tw_slot = None
+        if any(isinstance(n, ast.Call) and isinstance(n.func, ast.Name) and n.func.id in self.fft_names and n.func.id not in self.assigned
+               for s in kept for n in ast.walk(s)):
+            self.tw_slot = self.new_slot(TW_KEY); self.oracle_params.append(TW_KEY); defaults.append(None)
         self.params = params + self.oracle_params
         self.oracle_params_only = list(self.oracle_params)
         self.check_aliasing(body, set(params))
@@ -368,6 +434,10 @@ class FnTranslator:
                             for i, el in enumerate(n.value.elts if isinstance(n.value, ast.Tuple) else [n.value])
                             if isinstance(el, ast.Name) and el.id in self.matrix_vars}
         prog.arities = return_arities(fn)
+        prog.uses_tw = self.tw_slot is not None
+        # positions of the returned tuple that are fresh arrays / scalars on every path (the caller's target then shares with nothing)
+        rets = [(n.value.elts if isinstance(n.value, ast.Tuple) else [n.value]) for n in ast.walk(fn) if isinstance(n, ast.Return) and n.value is not None]
+        prog.fresh_rets = {i for i in range(min([len(r) for r in rets] or [0])) if all(self.is_fresh(r[i]) for r in rets)} if len(prog.arities) == 1 else set()
         return prog
 
     # ---------------------------------------------------------------- calls of other functions of the package (T5: same module; T6: any module)
@@ -396,6 +466,101 @@ class FnTranslator:
             self.local_imports[g] = (M, a.name)
         return True
 
+    def block_import(self, n):
+        """T7: `from . import M [as m]` / `from <package> import M [as m]` as a statement of some block INSIDE the function body (arma2psd imports
+        `tools` inside an `if`): m is then a local name; accepted when it is bound by nothing else, is no parameter and every read of it lies in the
+        statements that FOLLOW the import in the same block (so it is bound wherever it is read).  Registers m -> M."""
+        if self.loader is None or not ((n.level == 1 and n.module is None) or (n.level == 0 and n.module == PACKAGE)) or len(n.names) != 1:
+            return False
+        a = n.names[0]; m = a.asname or a.name
+        if a.name == '*' or '.' in a.name:
+            return False
+        argnames = {x.arg for x in self.fn.args.args} | set(self.spec.get('params', ()))
+        if m in argnames or m in self.assigned or m in self.local_imports or m in self.local_modules or m in EXC or m in self.np_names \
+                or m in self.fft_names or m in self.window_names:
+            return False
+        imports = [x for x in ast.walk(self.fn) if isinstance(x, (ast.Import, ast.ImportFrom)) and any((y.asname or y.name.split('.')[0]) == m for y in x.names)]
+        if len(imports) != 1:
+            return False
+        blk = None
+        for x in ast.walk(self.fn):
+            for fld in ('body', 'orelse'):
+                ss = getattr(x, fld, None)
+                if isinstance(ss, list) and any(s is n for s in ss):
+                    blk = ss
+        if blk is None:
+            return False
+        i = [k for k, s in enumerate(blk) if s is n][0]
+        after = {id(y) for s in blk[i + 1:] for y in ast.walk(s)}
+        for x in ast.walk(self.fn):
+            if isinstance(x, ast.Name) and x.id == m and id(x) not in after:
+                return False
+        self.loader.tree(a.name, n)           # the module must exist in the package
+        self.local_modules[m] = a.name
+        return True
+
+    def find_window_oracles(self, fn):
+        """T7: `w = Window(N, name[, **params])` immediately followed, in the same block, by `w = <expression over w.data>`: the Window object is an
+        ORACLE; its `.data` array is a hidden parameter of the program.  The constructor call may occur only as the whole right-hand side of such
+        an assignment, its arguments are integer arithmetic over names / a name or string / `**<parameter>` (nothing that could raise or have an
+        effect), and the only reads of the object are the `w.data` of the next statement, which rebinds w."""
+        if not self.window_names:
+            return
+        calls = [n for n in ast.walk(fn) if isinstance(n, ast.Call) and isinstance(n.func, ast.Name) and n.func.id in self.window_names]
+        if not calls:
+            return
+        ok = set()
+        for x in ast.walk(fn):
+            for fld in ('body', 'orelse'):
+                ss = getattr(x, fld, None)
+                if not isinstance(ss, list):
+                    continue
+                for i, s in enumerate(ss):
+                    if not (isinstance(s, ast.Assign) and len(s.targets) == 1 and isinstance(s.targets[0], ast.Name) and isinstance(s.value, ast.Call)
+                            and isinstance(s.value.func, ast.Name) and s.value.func.id in self.window_names):
+                        continue
+                    w = s.targets[0].id; c = s.value
+                    if s.value.func.id in self.assigned or i + 1 >= len(ss):
+                        self.fail(s, 'Window object that is not read by the next statement')
+                    nxt = ss[i + 1]
+                    if not (isinstance(nxt, ast.Assign) and len(nxt.targets) == 1 and isinstance(nxt.targets[0], ast.Name) and nxt.targets[0].id == w):
+                        self.fail(s, 'a Window object must be followed by `%s = <expression over %s.data>`' % (w, w))
+                    datas = [y for y in ast.walk(nxt.value) if isinstance(y, ast.Attribute) and y.attr == 'data' and isinstance(y.value, ast.Name) and y.value.id == w]
+                    loads = [y for y in ast.walk(nxt.value) if isinstance(y, ast.Name) and y.id == w]
+                    if not datas or len(loads) != len(datas):
+                        self.fail(nxt, 'a Window object may only be read as %s.data' % w)
+                    if len(c.args) != 2 or any(k.arg is not None for k in c.keywords) or len(c.keywords) > 1:
+                        self.fail(c, 'Window constructor with unexpected arguments')
+                    argnames = {x.arg for x in self.fn.args.args}
+                    for k in c.keywords:
+                        if not (isinstance(k.value, ast.Name) and k.value.id in argnames and k.value.id not in self.assigned):
+                            self.fail(c, '** of something else than an unassigned parameter')
+                    for y in ast.walk(c.args[0]):
+                        if not isinstance(y, (ast.Name, ast.Constant, ast.BinOp, ast.Add, ast.Sub, ast.Mult, ast.Load)) or (isinstance(y, ast.Constant) and type(y.value) is not int):
+                            self.fail(c, 'Window length is not integer arithmetic over names')
+                    if not (isinstance(c.args[1], ast.Name) or (isinstance(c.args[1], ast.Constant) and isinstance(c.args[1].value, str))):
+                        self.fail(c, 'Window name is not a name / string')
+                    for y in datas:
+                        y._window_data = True
+                    ok.add(id(c))
+        for c in calls:
+            if id(c) not in ok:
+                self.fail(c, 'Window constructor outside the oracle pattern')
+
+    def oracle_call_arity(self, s):
+        """T7: `a, b = f(x, y, k=z)` for a function f the spec declares an oracle (xcorr): targets are plain names, arguments are plain names"""
+        t = s.targets[0] if len(s.targets) == 1 else None
+        c = s.value
+        els = t.elts if isinstance(t, (ast.Tuple, ast.List)) else ([t] if isinstance(t, ast.Name) else None)
+        if els is None or not all(isinstance(e, ast.Name) for e in els) or c.func.id in self.assigned:
+            self.fail(s, 'oracle call of unexpected shape')
+        if not all(isinstance(x, ast.Name) for x in c.args) or not all(k.arg is not None and isinstance(k.value, ast.Name) for k in c.keywords):
+            self.fail(s, 'oracle call whose arguments are not plain names')
+        b = name_bindings(self.modtree, c.func.id)
+        if len(b) != 1 or b[0][0] != 'import' or package_module_of(b[0][1]) is None:
+            self.fail(s, 'the oracle %s is not bound exactly once, by an import of a function of the package' % c.func.id)
+        return len(els)
+
     def resolve_callee(self, f, where):
         """(module, its tree, FunctionDef) if the call target `f` / `m.f` names a function of the package, resolved syntactically through the
         imports; None if it is not a package function at all (builtin, numpy, method ...: the expression translator decides)"""
@@ -409,6 +574,8 @@ class FnTranslator:
                 tree = self.loader.tree(M, where)
                 return M, tree, find_function(tree, orig, where, modname=M + '.py')
             if name in self.assigned or name in argnames or name in self.oracle_fns or name in self.crit_class or name in self.crit_objs or name in EXC:
+                return None
+            if name in self.oracle_call_fns or name in self.fft_names or name in self.window_names:
                 return None
             if any(isinstance(n, ast.FunctionDef) and n.name == name for n in self.modtree.body):
                 return self.modname, self.modtree, find_function(self.modtree, name, where)
@@ -424,6 +591,14 @@ class FnTranslator:
             return M, tree, find_function(tree, b[0][2].name, where, modname=M + '.py')
         if isinstance(f, ast.Attribute) and isinstance(f.value, ast.Name):
             m = f.value.id
+            if m in self.local_modules:
+                if m in self.assigned or m in argnames:
+                    self.fail(where, 'a module name imported inside the function is also assigned')
+                M = self.local_modules[m]
+                if not self.loader.submodule_attribute_ok(M, where):
+                    self.fail(where, 'the attribute %s.%s of the package may be rebound by its __init__' % (PACKAGE, M))
+                tree = self.loader.tree(M, where)
+                return M, tree, find_function(tree, f.attr, where, modname=M + '.py')
             if m in self.assigned or m in argnames or m in self.np_names or m in self.logging_names or m in self.local_imports:
                 return None
             b = name_bindings(self.modtree, m)
@@ -457,6 +632,7 @@ class FnTranslator:
                     delattr(n, at)
         cand = sorted((n for n in allnodes if isinstance(n, ast.Call)), key=lambda n: (n.lineno, n.col_offset))
         rhs = {id(n.value) for n in allnodes if isinstance(n, ast.Assign) and len(n.targets) == 1}
+        rhs |= {id(n.value) for s in stmts for n in ast.walk(s) if isinstance(n, ast.Expr)}      # T7: `f(..)` as a statement (errors.is_positive_integer(order))
         for c in cand:
             r = self.resolve_callee(c.func, c)
             if r is None:
@@ -471,6 +647,8 @@ class FnTranslator:
                 spec = {'oracles': CALLEE_ORACLES[(M, fndef.name)]}
             sub = FnTranslator(tree, fndef, spec, fndef.name, stack=self.stack + (self.fn.name,), modname=M, loader=self.loader)
             c._callee = sub.translate()
+            if c._callee.uses_tw:
+                self.fail(c, 'the callee calls numpy.fft: its twiddle parameter is not passed down')
             self.calls.append(c)
         # names bound to the TUPLE a call returns (`results = rlevinson(poly, efinal)` ... `results[0]`): locals bound only by such calls (all of
         # the same arity n >= 2) and read only as `name[<int literal in -n..n-1>]`; the n values live in n slots
@@ -591,14 +769,63 @@ class FnTranslator:
         if self.matrix_vars & (self.list_vars | self.crit_objs):
             self.fail(fn, 'a 2-D array name is also used as a list / Criteria object')
 
-    def default(self, d):
+    def default(self, d, pname=None):
         if isinstance(d, ast.Constant) and (d.value is None or isinstance(d.value, (bool, int, float, str))):
             return self.const(d)
+        if isinstance(d, ast.UnaryOp) and isinstance(d.op, ast.USub) and isinstance(d.operand, ast.Constant) and type(d.operand.value) in (int, float):
+            return self.expr(d)                 # T7: a negative number (CORRELOGRAMPSD's lag=-1)
+        if isinstance(d, ast.Dict) and not d.keys and pname is not None:
+            # T7: `window_params={}`: accepted for a parameter that occurs ONLY as `**window_params` in a Window constructor (an oracle): the IR
+            # never reads it; the default is the placeholder None
+            uses = [n for n in ast.walk(self.fn) if isinstance(n, ast.Name) and n.id == pname]
+            kw = {id(k.value) for n in ast.walk(self.fn) if isinstance(n, ast.Call) and isinstance(n.func, ast.Name) and n.func.id in self.window_names
+                  for k in n.keywords if k.arg is None}
+            if uses and all(id(u) in kw for u in uses) and pname not in self.assigned:
+                return 'ENone'
+            self.fail(d, 'a dict default of a parameter that is read')
+        if isinstance(d, ast.Name) and self.loader is not None:
+            v = self.package_constant(d)
+            if v is not None:
+                return v
         self.fail(d, 'default value is not a literal')
+
+    def package_constant(self, d):
+        """T7: a default that is a NAME bound exactly once at module level by `from <package> import NAME` (minvar's NFFT=default_NFFT), NAME being
+        assigned exactly once, at the top level of the package's __init__, to an int literal, and exported by no `from .X import *` of __init__"""
+        name = d.id
+        b = name_bindings(self.modtree, name)
+        if len(b) != 1 or b[0][0] != 'import' or not isinstance(b[0][1], ast.ImportFrom) or b[0][2].asname not in (None, name):
+            return None
+        imp = b[0][1]
+        if not ((imp.level == 0 and imp.module == PACKAGE) or (imp.level == 1 and imp.module is None)):
+            return None
+        if any(isinstance(n, ast.Name) and n.id == name and isinstance(n.ctx, (ast.Store, ast.Del)) for n in ast.walk(self.modtree)):
+            return None
+        init = self.loader.tree('__init__', d)
+        stores = [n for n in ast.walk(init) if isinstance(n, ast.Name) and n.id == b[0][2].name and isinstance(n.ctx, (ast.Store, ast.Del))]
+        asg = [n for n in init.body if isinstance(n, ast.Assign) and len(n.targets) == 1 and isinstance(n.targets[0], ast.Name) and n.targets[0].id == b[0][2].name]
+        if len(stores) != 1 or len(asg) != 1 or not (isinstance(asg[0].value, ast.Constant) and type(asg[0].value.value) is int):
+            self.fail(d, 'the package constant %s is not assigned exactly once, to an int literal, at the top level of __init__' % name)
+        for n in ast.walk(init):
+            if isinstance(n, (ast.FunctionDef, ast.AsyncFunctionDef, ast.ClassDef)) and n.name == b[0][2].name:
+                self.fail(d, 'the package constant %s is also a def / class' % name)
+            if isinstance(n, ast.Global) and b[0][2].name in n.names:
+                self.fail(d, 'the package constant %s is declared global somewhere' % name)
+            if isinstance(n, (ast.Import, ast.ImportFrom)):
+                for a in n.names:
+                    if a.name == '*':
+                        sub = package_module_of(n)
+                        ex = self.loader.star_exports(sub, d, 1) if sub is not None else None
+                        if ex is None or b[0][2].name in ex:
+                            self.fail(d, 'the package constant %s may be rebound by a star import of __init__' % name)
+                    elif (a.asname or a.name.split('.')[0]) == b[0][2].name:
+                        self.fail(d, 'the package constant %s is rebound by an import of __init__' % name)
+        return self.const(asg[0].value)
 
     # ---------------------------------------------------------------- aliasing (arrays have value semantics in the IR)
     FRESH_CALLS = {'zeros', 'array', 'insert', 'concatenate', 'copy', 'astype', 'float', 'len', 'abs', 'max', 'min', 'sum',
-                   'dot', 'conjugate', 'conj', 'isrealobj'}
+                   'dot', 'conjugate', 'conj', 'isrealobj',
+                   'fft', 'rfft', 'fftshift', 'mean'}
 
     def is_fresh(self, e):
         if isinstance(e, (ast.Constant, ast.BinOp, ast.UnaryOp, ast.Compare, ast.BoolOp, ast.ListComp, ast.List, ast.Tuple)):
@@ -613,6 +840,15 @@ class FnTranslator:
             if nm in self.FRESH_CALLS or nm in self.oracle_fns or nm in self.crit_class or nm in self.crit_objs:
                 return True
         return False
+
+    def is_real_view_of(self, e, name):
+        if isinstance(e, ast.Call) and self.is_np(e.func, ('real',)) and len(e.args) == 1 and not e.keywords:
+            e = e.args[0]
+        elif isinstance(e, ast.Attribute) and e.attr == 'real':
+            e = e.value
+        else:
+            return False
+        return isinstance(e, ast.Name) and e.id == name
 
     def check_aliasing(self, body, shared0):
         def names(e):
@@ -640,6 +876,10 @@ class FnTranslator:
                     if isinstance(t, ast.Name):
                         if self.is_fresh(s.value):
                             shared.discard(t.id)
+                        elif hasattr(s.value, '_callee') and s.value._callee.arities == {1} and 0 in s.value._callee.fresh_rets:
+                            shared.discard(t.id)           # T7: the callee returns a fresh array on every path (tools.twosided_2_centerdc: fftshift)
+                        elif self.is_real_view_of(s.value, t.id) and t.id not in shared:
+                            pass                           # T7: `x = numpy.real(x)` for an unshared x: the view is the only way left to reach the array
                         else:
                             shared |= names(s.value) | {t.id}
                     elif isinstance(t, ast.Subscript) and isinstance(t.value, ast.Name):
@@ -733,19 +973,37 @@ class FnTranslator:
                     if x is None:
                         x = self.slot_of_local(f.value.id)      # appended to before any binding: UnboundLocal if executed
                     return 'SAppend %d %s' % (x, self.expr(v.args[0]))
+                if hasattr(v, '_callee'):
+                    # T7: `f(..)` as a statement for a function f of the package (errors.is_positive_integer(order)): the value is discarded
+                    prog, parts = self.call_head(s, v)
+                    if not prog.arities <= {1} or prog.matrix_rets:
+                        self.fail(s, 'a call statement of a callee that returns a tuple')
+                    return 'SCall1 %d %d %s %d\n(%s)\n[%s]' % ((self.new_slot('%s@discard#%d' % (prog.pyname, len(self.slots))),) + parts)
                 if isinstance(f, ast.Name) and f.id in EXC and f.id not in self.assigned:
                     # `ValueError("...")` as a statement: the exception object is built and DISCARDED (arcovar_marple never raises it)
                     self.pure_format_args(v)
                     return 'SSkip'
             self.fail(s, 'expression statement')
         if isinstance(s, ast.Pass):
-            return 'SSkip'
+            return 'SUnsupported' if getattr(s, '_unsupported', False) else 'SSkip'
         if isinstance(s, ast.ImportFrom):
             return 'SSkip'                                          # only `from spectrum import Criteria` reaches here
         if isinstance(s, ast.Assign):
             if len(s.targets) != 1:
                 self.fail(s, 'chained assignment')
             t = s.targets[0]
+            if hasattr(s, '_oracle_slots'):
+                # T7: `a, b = xcorr(..)`: the results are hidden parameters
+                els = t.elts if isinstance(t, (ast.Tuple, ast.List)) else [t]
+                for el in els:
+                    if el.id in self.matrix_vars or el.id in self.crit_objs or el.id in self.list_vars or el.id in self.tuple_vars:
+                        self.fail(s, 'oracle result bound to a 2-D array / Criteria / list / tuple name')
+                return self.seq(['SAssign %d (EVar %d)' % (self.slot_of_local(el.id), h) for el, h in zip(els, s._oracle_slots)])
+            if isinstance(t, ast.Name) and isinstance(s.value, ast.Call) and hasattr(s.value, '_oracle_slot') and isinstance(s.value.func, ast.Name) \
+                    and s.value.func.id in self.window_names:
+                if t.id in self.matrix_vars or t.id in self.crit_objs or t.id in self.list_vars or t.id in self.tuple_vars:
+                    self.fail(s, 'Window object bound to a 2-D array / Criteria / list / tuple name')
+                return 'SAssign %d (EVar %d)' % (self.slot_of_local(t.id), s.value._oracle_slot)      # the oracle: Window(..).data
             if isinstance(t, ast.Name) and t.id in self.matrix_vars:
                 z = self.zeros2_args(s.value)
                 if z is None:
@@ -776,6 +1034,17 @@ class FnTranslator:
                 if x is None:
                     self.fail(s, 'store into a non-local')
                 return 'SStore %d %s %s' % (x, self.expr(t.slice), self.expr(s.value))
+            if isinstance(t, ast.Subscript) and isinstance(t.value, ast.Name) and isinstance(t.slice, ast.Slice) and self.tw_slot is not None:
+                # T7: x[lo:hi:step] = e (CORRELOGRAMPSD); accepted only in the functions that call numpy.fft (nothing else needs it)
+                x = self.lookup(t.value.id)
+                if x is None or t.value.id in self.matrix_vars or t.value.id in self.list_vars or t.value.id in self.tuple_vars or t.value.id in self.crit_objs:
+                    self.fail(s, 'slice store into a non-local / a name that is not a 1-D array')
+                if self.is_pylist(s.value):
+                    self.fail(s, 'slice store of a Python list')
+
+                def o(v):
+                    return 'None' if v is None else '(Some %s)' % self.expr(v)
+                return 'SStoreSlice %d %s %s %s %s' % (x, o(t.slice.lower), o(t.slice.upper), o(t.slice.step), self.expr(s.value))
             self.fail(s, 'assignment target')
         if isinstance(s, ast.AugAssign):
             if type(s.op) not in BINOPS:
@@ -823,12 +1092,29 @@ class FnTranslator:
                 self.pure_format_args(e); e = e.func
             if isinstance(e, ast.Name) and e.id in EXC and e.id not in self.assigned:
                 return 'SRaise %s' % EXC[e.id]
+            if isinstance(e, ast.Name) and e.id not in self.assigned and self.is_spectrum_error(e.id):
+                return 'SRaise SpectrumError'
             self.fail(s, 'exception class')
         if isinstance(s, ast.Assert):
             if s.msg is not None and not isinstance(s.msg, ast.Constant):
                 self.fail(s, 'assert message')
             return 'SAssert %s' % self.expr(s.test)
         self.fail(s, 'statement')
+
+    def is_spectrum_error(self, name):
+        """T7: a class defined exactly once at the top level of this module whose chain of (single, plain-name) bases reaches the module's own
+        class SpectrumError and from there the builtin Exception (errors.SpectrumOrder)"""
+        seen = []; through = False
+        while name != 'Exception':
+            b = name_bindings(self.modtree, name)
+            if len(b) != 1 or not isinstance(b[0][1], ast.ClassDef) or b[0][1] not in self.modtree.body or name in seen:
+                return False
+            c = b[0][1]
+            if len(c.bases) != 1 or not isinstance(c.bases[0], ast.Name) or c.keywords or c.decorator_list:
+                return False
+            seen.append(name); through = through or name == 'SpectrumError'
+            name = c.bases[0].id
+        return through and not name_bindings(self.modtree, 'Exception')
 
     def matrix_store(self, s, t):
         """U[i, j] = x   and   U[:, j] = v   on a matrix name"""
@@ -1106,6 +1392,11 @@ class FnTranslator:
                 for a in reversed(alts[:-1]):
                     out = '(EOr %s %s)' % (a, out)
                 return out if isinstance(op, ast.In) else '(ENot %s)' % out
+            if isinstance(op, (ast.Eq, ast.NotEq)) and isinstance(l, ast.Call) and isinstance(l.func, ast.Name) and l.func.id == 'type' \
+                    and 'type' not in self.assigned and len(l.args) == 1 and not l.keywords and isinstance(r, ast.Name) and r.id == 'int' \
+                    and self.lookup('int') is None and 'int' not in self.assigned and self.tw_slot is None and self.modname == 'errors':
+                t = '(EIsInt %s)' % self.expr(l.args[0])          # T7: type(x) == int / != int (errors.is_positive_integer)
+                return t if isinstance(op, ast.Eq) else '(ENot %s)' % t
             if isinstance(op, ast.LtE) and self.is_zero_const(r):
                 return '(ELe0 %s)' % self.expr(l)
             if type(op) not in CMPOPS:
@@ -1120,6 +1411,9 @@ class FnTranslator:
             if x is None:       # read textually before the call that binds it
                 self.fail(e, 'tuple name read before it is bound')
             return '(EVar %d)' % x
+        if isinstance(e, ast.Subscript) and isinstance(e.value, ast.Attribute) and e.value.attr == 'shape' and self.tw_slot is not None \
+                and isinstance(e.slice, ast.Constant) and type(e.slice.value) is int and e.slice.value == 0:
+            return '(ELen %s)' % self.expr(e.value.value)             # T7: x.shape[0] of a 1-D array
         if isinstance(e, ast.Subscript):
             a = self.expr(e.value)
             sl = e.slice
@@ -1135,6 +1429,12 @@ class FnTranslator:
                 return '(EReal %s)' % self.expr(e.value)
             if e.attr == 'size':
                 return '(ELen %s)' % self.expr(e.value)
+            if e.attr == 'data' and getattr(e, '_window_data', False):
+                return self.expr(e.value)                             # T7: the slot holds the oracle array Window(..).data itself
+            if e.attr == 'pi' and self.is_np(e, ('pi',)) and self.pi_slot is not None:
+                return '(EVar %d)' % self.pi_slot                     # T7: numpy.pi is a hidden parameter
+            if e.attr == 'ndim' and self.tw_slot is not None:
+                return '(ENdim %s)' % self.expr(e.value)              # T7
             self.fail(e, 'attribute')
         if isinstance(e, ast.List):
             out = 'EArrNil'
@@ -1202,9 +1502,27 @@ class FnTranslator:
                 self.fail(e, 'call of a local name')
             if f.id in self.oracle_fns:
                 return '(EVar %d)' % e._oracle_slot
+            if f.id in self.fft_names and self.tw_slot is not None:
+                # T7: fft(a), fft(a, n), fft(a, n, axis=0|-1) on a 1-D array
+                if not 1 <= len(e.args) <= 2 or set(kws) - {'axis'} or any(isinstance(a, ast.Starred) for a in e.args):
+                    self.fail(e, 'fft with unexpected arguments')
+                if 'axis' in kws:
+                    ax = kws['axis']
+                    if isinstance(ax, ast.UnaryOp) and isinstance(ax.op, ast.USub):
+                        ax = ax.operand
+                        if not (isinstance(ax, ast.Constant) and type(ax.value) is int and ax.value == 1):
+                            self.fail(e, 'fft along an axis other than 0 / -1')
+                    elif not (isinstance(ax, ast.Constant) and type(ax.value) is int and ax.value == 0):
+                        self.fail(e, 'fft along an axis other than 0 / -1')
+                a = self.expr(e.args[0])
+                n = 'None' if len(e.args) == 1 else '(Some %s)' % self.expr(e.args[1])
+                return '(%s %s %s (EVar %d))' % ('EFft' if self.fft_names[f.id] == 'fft' else 'ERfft', a, n, self.tw_slot)
             if kws:
                 self.fail(e, 'keyword arguments')
             n = len(e.args)
+            if f.id == 'max' and n == 1 and self.tw_slot is not None and not isinstance(e.args[0], (ast.List, ast.ListComp, ast.Tuple, ast.GeneratorExp)) \
+                    and not self.is_pylist(e.args[0]):
+                return '(EMaxArr %s)' % self.expr(e.args[0])          # T7: builtin max over a 1-D array
             if f.id == 'len' and n == 1:
                 return '(ELen %s)' % self.expr(e.args[0])
             if f.id == 'float' and n == 1:
@@ -1218,6 +1536,12 @@ class FnTranslator:
             if f.id == 'abs' and n == 1 and isinstance(e.args[0], ast.BinOp) and isinstance(e.args[0].op, ast.Pow) and self.is_two(e.args[0].right):
                 return '(ENrm2 %s)' % self.expr(e.args[0].left)      # abs(z**2) = |z|^2 = z*conj(z) exactly (no rounding in the IR), as abs(z)**2
             self.fail(e, 'call')
+        if isinstance(f, ast.Attribute) and f.attr == 'fftshift' and isinstance(f.value, ast.Attribute) and f.value.attr == 'fft' \
+                and isinstance(f.value.value, ast.Name) and f.value.value.id in self.np_names and f.value.value.id not in self.assigned \
+                and len(e.args) == 1 and not kws:
+            return '(EFftShift %s)' % self.expr(e.args[0])            # T7: numpy.fft.fftshift
+        if self.is_np(f, ('mean',)) and len(e.args) == 1 and set(kws) <= {'axis'} and self.tw_slot is not None:
+            return '(EMean %s %s)' % (self.expr(e.args[0]), 'None' if 'axis' not in kws else '(Some %s)' % self.expr(kws['axis']))      # T7
         if self.is_np(f, ('real',)) and len(e.args) == 1 and not kws:
             return '(EReal %s)' % self.expr(e.args[0])
         if self.is_np(f, ('conj', 'conjugate')) and len(e.args) == 1 and not kws:
@@ -1532,7 +1856,7 @@ SELFTEST3_BAD = [           # (what, module, old, new)
     ('2-D array returned by a callee stored into an array', 'modf', "b, V, c = h(", "b, x[0], c = h("),
     ('tuple passed to a call', 'modf', "d = modh.h1(t[0])", "d = modh.h(t[0])"),
     ('call inside an expression', 'modf', "q = hh(d, 1)", "q = hh(d, 1) * 2"),
-    ('call as an expression statement (other module)', 'modf', "    q = hh(d, 1)", "    hh(d, 1)\n    q = d"),
+    ('call statement of a callee that returns a tuple (other module)', 'modf', "    q = hh(d, 1)", "    mh.h(d)\n    q = d"),
     ('call inside a return', 'modf', "return q, t[2], c", "return hh(q), t[2], c"),
     ('function that the module does not define', 'modf', "mh.h(b, e)", "mh.nothere(b, e)"),
     ('module that the package does not have', 'modf', "import spectrum.modh as mh", "import spectrum.nomod as mh"),
@@ -1566,6 +1890,143 @@ SELFTEST3_BAD = [           # (what, module, old, new)
 ]
 
 
+# T7 (the FFT-based kernels): fft / rfft over the hidden twiddle parameter, fftshift inside a callee imported in a block, max / mean of an array,
+# slice stores, the Window and xcorr oracles, numpy.pi, a dict default, a package constant as a default, a call statement, SpectrumError,
+# type(x) != int, an untranslated branch
+SELFTEST4_SPEC = dict(module='modk', oracle_calls=('xc',), unsupported_if=('x.ndim == 2',))
+SELFTEST4_OK = {
+    '__init__': """
+default_N = 8
+from .errors import *
+from .tools import *
+from .window import *
+from .correlation import *
+from .modk import *
+""",
+    'errors': """
+__all__ = ['check']
+class SpectrumError(Exception):
+    pass
+class SpectrumOrder(SpectrumError):
+    pass
+def check(n, name="x"):
+    if n < 0:
+        raise SpectrumOrder
+    if type(n) != int:
+        raise TypeError("%s bad" % name)
+    return True
+""",
+    'tools': """
+import numpy as np
+__all__ = ['shift']
+def shift(d):
+    return np.fft.fftshift(d)
+""",
+    'window': """
+__all__ = ['Window']
+class Window(object):
+    pass
+""",
+    'correlation': """
+__all__ = ['xc']
+def xc(a, b, maxlags=None):
+    return a, b
+""",
+    'modk': """
+import numpy as np
+from numpy.fft import fft, rfft
+from spectrum import errors
+from spectrum import default_N
+from .window import Window
+from .correlation import xc
+__all__ = ['f']
+def f(x, lag, n=default_N, wname='hamming', wp={}, norm=False, sides='default'):
+    errors.check(n)
+    x = np.array(x)
+    w = Window(2*lag+1, wname, **wp)
+    w = w.data[lag+1:]
+    r, _l = xc(x, x, maxlags=lag)
+    psd = np.zeros(n, dtype=complex)
+    psd[0] = r[0]
+    psd[1:lag+1] = r[1:] * w
+    psd[-1:n-lag-1:-1] = r[1:].conjugate() * w
+    if x.ndim == 2:
+        q = x.shape
+    m = np.mean(x, axis=0)
+    s = abs(fft(psd, n))**2. / x.shape[0] - m
+    t = rfft(psd, n, axis=-1)
+    s = np.real(s)
+    if sides != 'default':
+        from . import tools
+        s = tools.shift(s)
+    if norm == True:
+        s /= max(s)
+    return s * 2 * np.pi, t
+""",
+}
+SELFTEST4_BAD = [           # (what, module, old, new)
+    ('fft along axis 1', 'modk', "rfft(psd, n, axis=-1)", "rfft(psd, n, axis=1)"),
+    ('fft with a norm keyword', 'modk', "rfft(psd, n, axis=-1)", "rfft(psd, n, norm='ortho')"),
+    ('fft with three positional arguments', 'modk', "fft(psd, n))", "fft(psd, n, 0))"),
+    ('fft rebound at module level', 'modk', "from numpy.fft import fft, rfft", "from numpy.fft import fft, rfft\nfft = len"),
+    ('fft of another package', 'modk', "from numpy.fft import fft, rfft", "from scipy.fft import fft, rfft"),
+    ('inverse transform', 'modk', "abs(fft(psd, n))", "abs(ifft(psd, n))"),
+    ('fft in attribute form', 'modk', "abs(fft(psd, n))", "abs(np.fft.fft(psd, n))"),
+    ('fft as a local name', 'modk', "    x = np.array(x)", "    x = np.array(x)\n    fft = x"),
+    ('fft inside an embedded callee', 'tools', "import numpy as np\n__all__ = ['shift']\ndef shift(d):\n    return np.fft.fftshift(d)",
+     "import numpy as np\nfrom numpy.fft import fft\n__all__ = ['shift']\ndef shift(d):\n    return fft(d)"),
+    ('fftshift along given axes', 'tools', "np.fft.fftshift(d)", "np.fft.fftshift(d, axes=0)"),
+    ('inverse fftshift', 'tools', "np.fft.fftshift(d)", "np.fft.ifftshift(d)"),
+    ('max with a key', 'modk', "max(s)", "max(s, key=abs)"),
+    ('numpy.max', 'modk', "max(s)", "np.max(s)"),
+    ('max of a list display', 'modk', "max(s)", "max([1., 2.])"),
+    ('mean with a dtype', 'modk', "np.mean(x, axis=0)", "np.mean(x, axis=0, dtype=float)"),
+    ('median', 'modk', "np.mean(x, axis=0)", "np.median(x)"),
+    ('slice store into an array that may be shared', 'modk', "    psd[0] = r[0]", "    r[0:1] = w\n    psd[0] = r[0]"),
+    ('slice store through a slice view', 'modk', "    psd[0] = r[0]", "    v = psd[1:]\n    v[0:1] = w\n    psd[0] = r[0]"),
+    ('augmented slice store', 'modk', "psd[1:lag+1] = r[1:] * w", "psd[1:lag+1] += r[1:] * w"),
+    ('slice store of a Python list', 'modk', "psd[1:lag+1] = r[1:] * w", "psd[1:lag+1] = [1, 2]"),
+    ('2-D slice store', 'modk', "psd[1:lag+1] = r[1:] * w", "psd[1:lag+1, 0] = r[1:] * w"),
+    ('Window object kept', 'modk', "    w = w.data[lag+1:]", "    v = w.data[lag+1:]\n    w = v"),
+    ('Window object read otherwise than as .data', 'modk', "w = w.data[lag+1:]", "w = w.data[lag+1:] * w.N"),
+    ('Window constructor inside an expression', 'modk', "    w = Window(2*lag+1, wname, **wp)\n    w = w.data[lag+1:]", "    w = Window(2*lag+1, wname, **wp).data[lag+1:]"),
+    ('Window length computed by a call', 'modk', "Window(2*lag+1,", "Window(len(x),"),
+    ('Window with ** of an expression', 'modk', "**wp)", "**dict(a=1))"),
+    ('Window with a third positional argument', 'modk', "wname, **wp)", "wname, 3, **wp)"),
+    ('.data of an array', 'modk', "    m = np.mean", "    zz = x.data\n    m = np.mean"),
+    ('Window class rebound', 'modk', "from .window import Window", "from .window import Window\nWindow = len"),
+    ('the dict-default parameter is read', 'modk', "    x = np.array(x)", "    x = np.array(x)\n    k2 = wp"),
+    ('non-empty dict default', 'modk', "wp={}", "wp={'a': 1}"),
+    ('oracle call with an expression argument', 'modk', "xc(x, x, maxlags=lag)", "xc(x, x[1:], maxlags=lag)"),
+    ('oracle call inside an expression', 'modk', "r, _l = xc(x, x, maxlags=lag)", "r = xc(x, x, maxlags=lag)[0]"),
+    ('oracle call stored into an array', 'modk', "r, _l = xc(x, x, maxlags=lag)", "r, x[0] = xc(x, x, maxlags=lag)"),
+    ('oracle that is not a function of the package', 'modk', "from .correlation import xc", "from os.path import join as xc"),
+    ('block import read before the import', 'modk', "        from . import tools\n        s = tools.shift(s)", "        s = tools.shift(s)\n        from . import tools"),
+    ('block import read outside its block', 'modk', "    if norm == True:", "    s = tools.shift(s)\n    if norm == True:"),
+    ('block import of a name that is assigned', 'modk', "    if norm == True:", "    tools = 1\n    if norm == True:"),
+    ('block import from outside the package', 'modk', "        from . import tools", "        import os as tools"),
+    ('block import of a module the package does not have', 'modk', "        from . import tools\n        s = tools.shift(s)", "        from . import nomod\n        s = nomod.shift(s)"),
+    ('block-imported module rebound by __init__', '__init__', "from .modk import *", "from .modk import *\ntools = None"),
+    ('in-place division of a view of another array', 'modk', "    s = np.real(s)", "    s = np.real(t)"),
+    ('in-place division after a callee that returns its argument', 'tools', "return np.fft.fftshift(d)", "return d"),
+    ('exception class not derived from SpectrumError', 'errors', "class SpectrumOrder(SpectrumError):", "class SpectrumOrder(object):"),
+    ('exception class defined twice', 'errors', "def check(", "class SpectrumOrder(KeyError):\n    pass\ndef check("),
+    ('type test against float', 'errors', "type(n) != int", "type(n) != float"),
+    ('isinstance test', 'errors', "type(n) != int", "not isinstance(n, int)"),
+    ('package constant exported by a star import', 'tools', "__all__ = ['shift']", "__all__ = ['shift', 'default_N']"),
+    ('package constant assigned twice', '__init__', "default_N = 8", "default_N = 8\ndefault_N = 9"),
+    ('package constant not a literal', '__init__', "default_N = 8", "default_N = 4 + 4"),
+    ('package constant rebound in the module', 'modk', "from spectrum import default_N", "from spectrum import default_N\ndefault_N = 3"),
+    ('default name imported from a submodule', 'modk', "from spectrum import default_N", "from .tools import shift as default_N"),
+    ('test named by the spec not found', 'modk', "if x.ndim == 2:", "if x.ndim >= 2:"),
+    ('x.shape[1]', 'modk', "x.shape[0]", "x.shape[1]"),
+    ('x.shape as a value', 'modk', "/ x.shape[0]", "/ x.shape"),
+    ('numpy.e', 'modk', "np.pi", "np.e"),
+    ('call statement of an unknown function', 'modk', "errors.check(n)", "errors.nothere(n)"),
+    ('call statement of a builtin', 'modk', "errors.check(n)", "print(n)"),
+]
+
+
 def translator_selftest():
     """the names of the self-test edits that the translator wrongly accepts (must be empty), or a failure of the base case"""
     spec = dict(module='selftest')
@@ -1581,12 +2042,21 @@ def translator_selftest():
         ld = Loader(srcs, only=True)
         tree = ld.tree('modf')
         return FnTranslator(tree, find_function(tree, 'f'), spec, 'f', modname='modf', loader=ld).translate()
+    def tr4(srcs):
+        ld = Loader(srcs, only=True)
+        tree = ld.tree('modk')
+        return FnTranslator(tree, find_function(tree, 'f'), SELFTEST4_SPEC, 'f', modname='modk', loader=ld).translate()
     try:
         tr(SELFTEST_OK)
         tr2(SELFTEST2_OK)
         p3 = tr3(SELFTEST3_OK)
         if len(p3.oracle_params) != 1 or p3.body.count('SCall1 ') != 3 or p3.body.count('SCall [') != 2:
             return ['base case 3: unexpected translation']
+        p4 = tr4(SELFTEST4_OK)
+        if len(p4.oracle_params) != 5 or p4.oracle_params[-1] != TW_KEY or any(p4.body.count(k) != c for k, c in (
+                ('EFft ', 1), ('ERfft ', 1), ('SStoreSlice ', 2), ('SUnsupported', 1), ('EMaxArr ', 1), ('EMean ', 1), ('EFftShift ', 1),
+                ('SRaise SpectrumError', 1), ('EIsInt ', 1), ('SCall1 ', 2), ('ENdim ', 1))):
+            return ['base case 4: unexpected translation']
     except Untranslatable as e:
         return ['base case rejected: %s' % e]
     bad = []
@@ -1594,6 +2064,15 @@ def translator_selftest():
         assert old in SELFTEST3_OK[mod], what
         try:
             tr3(dict(SELFTEST3_OK, **{mod: SELFTEST3_OK[mod].replace(old, new, 1)}))
+            bad.append(what)
+        except Untranslatable:
+            pass
+        except SyntaxError as e:     # pragma: no cover
+            bad.append('%s (self-test edit does not parse: %s)' % (what, e))
+    for what, mod, old, new in SELFTEST4_BAD:
+        assert old in SELFTEST4_OK[mod], what
+        try:
+            tr4(dict(SELFTEST4_OK, **{mod: SELFTEST4_OK[mod].replace(old, new, 1)}))
             bad.append(what)
         except Untranslatable:
             pass
@@ -1698,6 +2177,7 @@ class Cases:
     def __init__(self, fn):
         self.fn = fn; self.exact = []; self.meta = []; self.impl = []; self.impl_meta = []
         self.spec = []; self.spec_meta = []; self.spec_descr = ''      # exact comparison with an independent exact specification model
+        self.flt = []; self.flt_meta = []                              # T7: binary64 cases (IR run vs hand model and vs the implementation)
 
     def add(self, text, impl=None, **meta):
         """impl = (outputs, exception-name) of the implementation on this input: recorded in the distribution only"""
@@ -1707,6 +2187,9 @@ class Cases:
 
     def add_impl(self, text, **meta):
         self.impl.append(text); meta['function'] = self.fn; meta['case'] = text[:1500]; self.impl_meta.append(meta)
+
+    def add_flt(self, text, **meta):
+        self.flt.append(text); meta['function'] = self.fn; meta['case'] = text[:1500]; self.flt_meta.append(meta)
 
     def add_spec(self, text, **meta):
         self.spec.append(text); meta['function'] = self.fn; meta['case'] = text[:1500]; self.spec_meta.append(meta)
@@ -2507,14 +2990,20 @@ GENERATORS = {'LEVINSON': gen_LEVINSON, 'HERMTOEP': gen_HERMTOEP, 'TOEPLITZ': ge
               'rlevinson': gen_rlevinson,
               'aryule': gen_aryule, 'ma': gen_ma, 'ac2poly': gen_ac2('ac2poly'), 'ac2rc': gen_ac2('ac2rc'), 'poly2ac': gen_poly2('poly2ac', 0),
               'poly2rc': gen_poly2('poly2rc', 2), 'ar2rc': gen_ar2rc, 'rc2poly': gen_rc2poly, 'rc2ac': gen_rc2ac}
+# T7: the FFT-based kernels; their generators (props/_loopir_vec.py) take a fourth budget: the number of binary64 cases
+from props import _loopir_vec as _vec       # noqa: E402
+VEC_GENERATORS = {'arma2psd': _vec.gen_arma2psd, 'minvar': _vec.gen_minvar, 'CORRELOGRAMPSD': _vec.gen_CORRELOGRAMPSD, 'speriodogram': _vec.gen_speriodogram}
+FLOAT_BUDGET = {'arma2psd': (60, 600), 'minvar': (30, 240), 'CORRELOGRAMPSD': (60, 400), 'speriodogram': (60, 400)}
 EXACT_BUDGET = {'LEVINSON': (64, 400), 'HERMTOEP': (48, 300), 'TOEPLITZ': (56, 300), 'levup': (45, 200), 'levdown': (44, 200),
                 'arburg': (65, 400), 'CORRELATION': (68, 400), 'minvar_psi': (48, 300),
                 'arcovar_marple': (36, 180), 'modcovar_marple': (36, 180), 'rlevinson': (56, 300),
                 'aryule': (64, 400), 'ma': (40, 240), 'ac2poly': (40, 200), 'ac2rc': (40, 200), 'poly2ac': (44, 240), 'poly2rc': (44, 240),
-                'ar2rc': (4, 8), 'rc2poly': (44, 240), 'rc2ac': (44, 240)}
+                'ar2rc': (4, 8), 'rc2poly': (44, 240), 'rc2ac': (44, 240),
+                'arma2psd': (72, 500), 'minvar': (56, 300), 'CORRELOGRAMPSD': (72, 400), 'speriodogram': (64, 400)}
 # programs whose comparators live in a module of their own (imported by the case files only when such a program is tied)
 EXTRA_MODULES = {'arcovar_marple': 'Spectrum.Model.LoopIRMarple', 'modcovar_marple': 'Spectrum.Model.LoopIRMarple',
                  'rlevinson': 'Spectrum.Model.LoopIRRlev'}
+EXTRA_MODULES.update({nm: 'Spectrum.Model.LoopIRVec' for nm in ('arma2psd', 'minvar', 'CORRELOGRAMPSD', 'speriodogram')})
 EXTRA_MODULES.update({nm: 'Spectrum.Model.LoopIRWrap' for nm in ('aryule', 'ma', 'ac2poly', 'ac2rc', 'poly2ac', 'poly2rc', 'ar2rc', 'rc2poly', 'rc2ac')})
 
 # ---------------------------------------------------------------- LEVINSON: translation + theorem
@@ -3112,6 +3601,35 @@ Print Assumptions loopir_rc2poly_tie.
 THEOREMS['rc2poly'] = dict(proof=RC2POLY_PROOF, theorems=RC2POLY_THEOREMS, block=RC2POLY_BLOCK)
 
 
+# ---------------------------------------------------------------- arma2psd: translation + theorem (T7)
+ARMA2PSD_PROOF = 'Proofs/LoopIRArma2psd.v'
+ARMA2PSD_THEOREMS = ['loopir_arma2psd_model', 'loopir_arma2psd_tie']
+ARMA2PSD_BLOCK = """
+(* The program of arma2psd regenerated on this run - two loops filling den / num, two numpy.fft.fft calls (the DFT specification of Theory/Dft.v over the
+   hidden twiddle parameter), abs()**2, the three formulas, numpy.real, tools.twosided_2_centerdc embedded, psd /= max(psd) - is, term for term, the one
+   Proofs/LoopIRArma2psd.v is about: its theorems apply. *)
+Require Import Spectrum.Theory.Ops Spectrum.Theory.Vec Spectrum.Theory.Dft Spectrum.Model.Arma2psd Spectrum.Model.LoopIRTie Spectrum.Model.LoopIRVec
+               Spectrum.Proofs.LoopIRArma2psd.
+Lemma prog_arma2psd_is_ref : prog_arma2psd = prog_arma2psd_ref.
+Proof. reflexivity. Qed.
+(* for EVERY twiddle family, A / B absent or arrays of any length and dtype tag, rho / T given or omitted, every NFFT (a natural number), sides omitted
+   or ANY string, norm omitted / False / True: the run returns / raises exactly what Model.Arma2psd.arma2psd says (arma2psd_spec of Model/LoopIRVec.v) *)
+Theorem loopir_arma2psd_model :
+  forall (F : Type) (OF : Ops F) (L : Laws OF) (feq : F -> F -> bool) (stop : Z -> F -> F -> bool) (tw : nat -> Z -> F)
+         (A B : option (bool * list F)) (rho T : option F) (nfft : nat) (sides : option string) (norm : option bool),
+  run feq stop prog_arma2psd (arma2psd_args tw A B rho T nfft sides norm) = arma2psd_spec tw A B rho T nfft sides norm.
+Proof. intros. rewrite prog_arma2psd_is_ref. apply arma2psd_ir_run. Qed.
+Theorem loopir_arma2psd_tie :
+  forall (F : Type) (OF : Ops F) (L : Laws OF) (feq : F -> F -> bool), (forall a, feq a a = true) ->
+  forall (tw : nat -> Z -> F) (A B : option (bool * list F)) (rho T : option F) (nfft : nat) (sides : option string) (norm : option bool),
+  tie_arma2psd feq tw prog_arma2psd A B rho T nfft sides norm = true.
+Proof. intros. rewrite prog_arma2psd_is_ref. apply arma2psd_ir_tie; assumption. Qed.
+Print Assumptions loopir_arma2psd_model.
+Print Assumptions loopir_arma2psd_tie.
+"""
+THEOREMS['arma2psd'] = dict(proof=ARMA2PSD_PROOF, theorems=ARMA2PSD_THEOREMS, block=ARMA2PSD_BLOCK)
+
+
 def reference_text_in(proof, name):
     """the program text of <name> that <proof> was proved about (between its BEGIN/END GENERATED <name> markers)"""
     t = open(os.path.join(vlib.COQ, proof)).read()
@@ -3124,7 +3642,10 @@ TRUSTED_LINE = ("loop-IR tie: the translator tools/props/_loopir.py (Python ast 
                 "snapshot source on every run and evaluated exactly (QcC, zero tolerance) against the hand-written model; for LEVINSON, CORRELATION, "
                 "levup, levdown, HERMTOEP, TOEPLITZ, arburg (with and without an order-selection criterion), the psi loop of minvar and - by composition of the CORRELATION and LEVINSON theorems through the call semantics - the wrappers aryule, ma, ac2poly, ac2rc, rc2poly `run program = model` is moreover a theorem (for rlevinson and the two Marple recursions: argument checks and orders 0/1) for all inputs (Proofs/LoopIR*.v), "
                 "all nine wrappers (aryule, ma, ac2poly, ac2rc, poly2ac, poly2rc, ar2rc, rc2poly, rc2ac) are translated with their callees (functions of other modules of the package, imports resolved syntactically, fail-closed) embedded and evaluated exactly on sampled inputs, "
-                "claimed only while the regenerated program text is the one the proof is about (compared on every run, reflexivity inside Coq)")
+                "claimed only while the regenerated program text is the one the proof is about (compared on every run, reflexivity inside Coq); "
+                "T7: the FFT-based kernels arma2psd (theorem for all inputs), minvar as a whole function, CORRELOGRAMPSD (CORRELATION embedded) and the 1-D path of speriodogram are "
+                "translated as well: numpy.fft.fft / rfft are the DFT specification of Theory/Dft.v over a hidden twiddle parameter (exact runs with tw1/tw2/tw4, binary64 runs with "
+                "a harness table), Window samples / numpy.pi / xcorr / pylab_rms_flat are oracle inputs")
 
 
 def loopir_tie(ctx, names):
@@ -3133,7 +3654,7 @@ def loopir_tie(ctx, names):
     t0 = time.time()
     info = ctx.extra.setdefault('loopir', {})
     wrong = translator_selftest()
-    info['translator_selftest'] = {'edits_that_must_be_rejected': len(SELFTEST_BAD) + len(SELFTEST2_BAD) + len(SELFTEST3_BAD), 'wrongly_accepted': wrong}
+    info['translator_selftest'] = {'edits_that_must_be_rejected': len(SELFTEST_BAD) + len(SELFTEST2_BAD) + len(SELFTEST3_BAD) + len(SELFTEST4_BAD), 'wrongly_accepted': wrong}
     if wrong:
         ctx.broken.append({'theorem': 'loopir: translator self-test (fail-closed behaviour)', 'where': '_loopir.py', 'log': '; '.join(wrong)})
     progs = {}
@@ -3231,7 +3752,18 @@ def loopir_tie(ctx, names):
     for nm, p in progs.items():
         rng = np.random.default_rng([int(ctx.seed) % (1 << 32), int(hashlib.md5(nm.encode()).hexdigest()[:8], 16)])
         q, t = EXACT_BUDGET[nm]
-        c = GENERATORS[nm](rng, ctx.q(q, t), ctx.q(8, 40))
+        if nm in VEC_GENERATORS:
+            try:
+                c = VEC_GENERATORS[nm](rng, ctx.q(q, t), ctx.q(8, 40), ctx.q(*FLOAT_BUDGET[nm]))
+            except Exception:       # a changed implementation may make a generator's auxiliary computation fail: reported, the other kernels still run
+                import traceback
+                ctx.broken.append({'theorem': 'loopir: case generator of %s (exception)' % nm, 'where': '_loopir_vec.py', 'log': traceback.format_exc()[-2000:]})
+                continue
+            ctx.count('loopir/%s/binary64' % nm, len(c.flt)); info[nm]['binary64_cases'] = len(c.flt)
+            for m in c.flt_meta:
+                ctx.case(('loopir-f', nm, m['case']), nontrivial=True)
+        else:
+            c = GENERATORS[nm](rng, ctx.q(q, t), ctx.q(8, 40))
         for m in c.meta:
             ctx.case(('loopir', nm, m['case']), nontrivial=True)
         for m in c.meta:
@@ -3247,10 +3779,15 @@ def loopir_tie(ctx, names):
         bad = ctx.coq_cases('loopir_%s' % nm, pre, c.exact, shard=ctx.q(24, 100), descr='IR program of %s (regenerated from the source) vs the hand-written model: exact equality at QcC' % nm)
         bad2 = ctx.coq_cases('loopir_%s_impl' % nm, pre, c.impl, descr='IR program of %s run at QcC vs the implementation (float tolerance): sanity of the translation' % nm)
         bad3 = ctx.coq_cases('loopir_%s_ls' % nm, pre, c.spec, shard=ctx.q(12, 45), descr=c.spec_descr) if c.spec else []
-        return nm, c, bad, bad2, bad3
+        bad4 = ctx.coq_cases('loopir_%s_float' % nm, _vec.PRE_FLT + defs + _vec.PRE_FLT_TAIL, c.flt, shard=ctx.q(20, 60),
+                             descr='IR program of %s run at binary64 (twiddle table from the harness) vs the hand-written model (bit for bit where the model performs the same '
+                                   'operations) and vs the implementation (tolerance of the existing correspondence)' % nm) if c.flt else []
+        return nm, c, bad, bad2, bad3, bad4
     with ThreadPoolExecutor(max_workers=8) as ex:
         res = list(ex.map(one, jobs))
-    for nm, c, bad, bad2, bad3 in res:
+    for nm, c, bad, bad2, bad3, bad4 in res:
+        for i in bad4:
+            ctx.corr_disagreement('loopir:%s (IR run at binary64 vs model / implementation)' % nm, i, c.flt_meta[i])
         for i in bad:
             ctx.corr_disagreement('loopir:%s' % nm, i, c.meta[i])
         for i in bad2:
